@@ -397,7 +397,49 @@ pub fn generate(seed: u64, tier: Tier) -> Doc {
             let mut missing = None;
             let mut obstruct: Vec<String> = vec![];
             let np = base.patches.len();
-            match r.below(11) {
+            match r.below(12) {
+                11 => {
+                    // a full disk made of patch content: one command addresses a position
+                    // beyond the largest file the simulated disk holds (96 MiB), as a 32-bit
+                    // block offset (x 128: up to 512 GiB) or a 64-bit file offset may
+                    let limit_blocks = (crate::simfs::MAX_FILE >> 7) as u32;
+                    let pi = r.usize_below(np);
+                    let cands: Vec<usize> = base.patches[pi]
+                        .iter()
+                        .enumerate()
+                        .filter(|(_, c)| matches!(c, Chunk::AddData { .. } | Chunk::DeleteData { .. } | Chunk::ExpandData { .. } | Chunk::AddFile { .. }))
+                        .map(|(i, _)| i)
+                        .collect();
+                    if !cands.is_empty() {
+                        let ci = *r.pick(&cands);
+                        let far = |r: &mut Rng, old: u32| -> u32 {
+                            match r.below(8) {
+                                0 => 1 << 25,
+                                1 => (1 << 25) + 1,
+                                2 => (1u32 << 25).wrapping_add(old),
+                                3 => 1 << 26,
+                                4 => 0x7FFF_FFFF,
+                                5 => 0xFFFF_FFFF,
+                                6 => limit_blocks,
+                                _ => limit_blocks + r.below(1 << 20) as u32,
+                            }
+                        };
+                        match &mut base.patches[pi][ci] {
+                            Chunk::AddData { block_offset, .. } | Chunk::DeleteData { block_offset, .. } | Chunk::ExpandData { block_offset, .. } => {
+                                *block_offset = far(&mut r, *block_offset);
+                            }
+                            Chunk::AddFile { offset, .. } => {
+                                *offset = match r.below(4) {
+                                    0 => 1 << 32,
+                                    1 => (1u64 << 32) + *offset,
+                                    2 => 1 << 40,
+                                    _ => crate::simfs::MAX_FILE + r.below(1 << 20),
+                                };
+                            }
+                            _ => {}
+                        }
+                    }
+                }
                 10 => {
                     // an unwritable target made of tree state: a file sits where a directory
                     // has to be created
